@@ -5,6 +5,7 @@ import (
 	"errors"
 	"fmt"
 	"io"
+	"math"
 	"reflect"
 	"sort"
 	"strconv"
@@ -91,13 +92,30 @@ func parseTag(s string) language.Tag {
 	return t
 }
 
+// tagClass: what golang.org/x/text says about the tag (not the library): exactly English, exactly
+// Japanese, another tag of those two languages (regional variants: unspecified by C18), or a tag
+// of another language (must give the English names)
+func tagClass(t language.Tag) string {
+	if t == language.English {
+		return "en"
+	}
+	if t == language.Japanese {
+		return "ja"
+	}
+	// the primary language subtag of the canonical form (no likely-subtag inference: "und-JP" is undetermined)
+	if bs := strings.SplitN(t.String(), "-", 2)[0]; bs == "en" || bs == "ja" {
+		return "regional"
+	}
+	return "other"
+}
+
 func opNM(fn string, v int, tag string) (string, bool) {
 	l := parseTag(tag)
 	if f, ok := titleFns[fn]; ok {
-		return "name=" + hx(f(l)), true
+		return "name=" + hx(f(l)) + " cls=" + tagClass(l), true
 	}
 	if f, ok := valueFns[fn]; ok {
-		return "name=" + hx(f(v, l)), true
+		return "name=" + hx(f(v, l)) + " cls=" + tagClass(l), true
 	}
 	return "", false
 }
@@ -133,20 +151,23 @@ func dumpFields(prefix string, v reflect.Value, out *[]string) {
 // mkReport decodes the vector at the level (the result may be invalid: the report is still built
 // from whatever object the decoder left behind) and builds the report of that level.
 func mkReport(level, tag, vec string) (interface{}, string) {
-	opt := report.WithOptionsLanguage(parseTag(tag))
+	opt := []report.ReportOptionsFunc{}
+	if tag != "-" {
+		opt = append(opt, report.WithOptionsLanguage(parseTag(tag)))
+	}
 	switch level {
 	case "B":
 		o := m3.NewBase()
 		_, err := o.Decode(vec)
-		return report.NewBase(o, opt), errTag(err)
+		return report.NewBase(o, opt...), errTag(err)
 	case "T":
 		o := m3.NewTemporal()
 		_, err := o.Decode(vec)
-		return report.NewTemporal(o, opt), errTag(err)
+		return report.NewTemporal(o, opt...), errTag(err)
 	default:
 		o := m3.NewEnvironmental()
 		_, err := o.Decode(vec)
-		return report.NewEnvironmental(o, opt), errTag(err)
+		return report.NewEnvironmental(o, opt...), errTag(err)
 	}
 }
 
@@ -155,7 +176,35 @@ func opR3(level, tag, vec string) string {
 	fields := []string{}
 	dumpFields("", reflect.ValueOf(rep), &fields)
 	sort.Strings(fields)
-	return "e=" + e + " " + strings.Join(fields, " ")
+	return "e=" + e + " " + ownScores(level, vec) + " " + strings.Join(fields, " ")
+}
+
+// ownScores: what Score() and Severity() of an object decoded from the same vector return at each
+// level up to the report's (C17 says a score field renders *that* score)
+func ownScores(level, vec string) string {
+	ss, sv := []string{}, []string{}
+	add := func(s float64, v int) {
+		ss = append(ss, fmt.Sprintf("%016x", math.Float64bits(s)))
+		sv = append(sv, strconv.Itoa(v))
+	}
+	switch level {
+	case "B":
+		o := m3.NewBase()
+		o.Decode(vec)
+		add(o.Score(), int(o.Severity()))
+	case "T":
+		o := m3.NewTemporal()
+		o.Decode(vec)
+		add(o.BaseMetrics().Score(), int(o.BaseMetrics().Severity()))
+		add(o.Score(), int(o.Severity()))
+	default:
+		o := m3.NewEnvironmental()
+		o.Decode(vec)
+		add(o.BaseMetrics().Score(), int(o.BaseMetrics().Severity()))
+		add(o.TemporalMetrics().Score(), int(o.TemporalMetrics().Severity()))
+		add(o.Score(), int(o.Severity()))
+	}
+	return "OWN.s=" + strings.Join(ss, ",") + " OWN.sv=" + strings.Join(sv, ",")
 }
 
 // ---- template export (C19): the library's result next to text/template called directly on the same report
